@@ -540,8 +540,15 @@ def r72(ctx, repo):
     rets = [r for r in walk(gi) if isinstance(r, ast.Return)]
     stores = [n for n in walk(gi) if isinstance(n, ast.Assign) and isinstance(
         n.targets[0], ast.Subscript) and is_self_attr(n.targets[0].value)]
-    ok = all(isinstance(r.value, ast.Subscript) and is_name(
-        r.value.slice, feat) for r in rets) and all(
+    made = {n.targets[0].id for n in walk(gi) if isinstance(n, ast.Assign)
+            and isinstance(n.targets[0], ast.Name)
+            and any(n.value is c for c in cons)}
+    ok = all((isinstance(r.value, ast.Subscript) and is_name(
+        r.value.slice, feat)) or (isinstance(r.value, ast.Name)
+                                  and r.value.id in made
+                                  and any(is_name(n.value, r.value.id)
+                                          for n in stores))
+             for r in rets) and all(
         is_name(n.targets[0].slice, feat) for n in stores) and bool(rets)
     ctx.ob("R7.2", ok, "the wrapper cache is keyed by the feature name"
            if ok else "the wrapper cache is not keyed by the requested "
@@ -681,7 +688,8 @@ def export_func(repo):
     """Export.hdf5 with module-level helpers inlined and walrus removed"""
     if getattr(repo, "_c07_export", None) is None:
         repo._c07_export = dewalrus(inline_module_helpers(
-            repo, EXPORT, repo.func(EXPORT, "Export.hdf5")))
+            repo, EXPORT, repo.func(EXPORT, "Export.hdf5"),
+            keep=("store_filtered_feature", "yield_filtered_array_stacks")))
     return repo._c07_export
 
 
@@ -1002,7 +1010,10 @@ def map_refs(loop, var):
     ``var["basin_map"]``, ``var.get("basin_map")`` or a local assigned once
     from one of them before the map is rewritten.
     -> (is_ref(expr), env(value) for the evaluator)"""
-    first_write = min([n.lineno for n in walk(loop) if isinstance(
+    # position in execution (source) order – line numbers coincide for
+    # statements that were inlined from a helper
+    order = {id(n): i for i, n in enumerate(walk(loop))}
+    first_write = min([order[id(n)] for n in walk(loop) if isinstance(
         n, ast.Assign) and is_key(n.targets[0], var, "basin_map")]
         or [10 ** 9])
     names = {}
@@ -1012,7 +1023,7 @@ def map_refs(loop, var):
                 n.value, var, "basin_map"):
             names.setdefault(n.targets[0].id, []).append(n)
     locs = {k for k, v in names.items()
-            if len(v) == 1 and v[0].lineno < first_write
+            if len(v) == 1 and order[id(v[0])] < first_write
             and sum(1 for x in walk(loop) if isinstance(x, ast.Name)
                     and x.id == k and isinstance(x.ctx, ast.Store)) == 1}
 
@@ -1216,7 +1227,7 @@ CREATORS = {"create_dataset": ("name", 0), "create_group": ("name", 0),
 
 def r74(ctx, repo):
     for q, f in repo.all_functions(COPIER):
-        f = dewalrus(f)
+        f = expand_partials(dewalrus(f))
         for c in [n for n in walk(f) if isinstance(n, ast.Call)]:
             la = last_attr(c)
             if la == "h5ds_copy" or call_name(c) == "h5ds_copy":
@@ -2053,6 +2064,46 @@ _TWIN_CANDIDATES = (
     "            for bn in candidates:\n")
 
 
+def _twin_store_basins_function(src):
+    """the loop storing the basins moved into a module-level procedure"""
+    a = src.index('                for bn_dict in basin_list:\n'
+                  '                    if bn_dict.get("basin_type")')
+    b = src.index("    def tsv(self, path, features, meta_data=None")
+    loop = src[a:b].rstrip("\n") + "\n"
+    body = "".join(ln[12:] if ln.strip() else ln
+                   for ln in loop.splitlines(True))
+    body = body.replace("filter_arr", "filtarr").replace(
+        "hw.store_basin", "rtdc_writer.store_basin")
+    src = src[:a] + ("                store_filtered_basins(hw, basin_list, "
+                     "filtered, filter_arr)\n\n") + src[b:]
+    return src.replace(
+        "def store_filtered_feature(rtdc_writer, feat, data, filtarr):",
+        "def store_filtered_basins(rtdc_writer, basin_list, filtered, "
+        "filtarr):\n" + body + "\n\n"
+        "def store_filtered_feature(rtdc_writer, feat, data, filtarr):", 1)
+
+
+def _twin_copy_member_partial(src):
+    """recursive group copy through a functools.partial"""
+    old = ("        for key in src:\n"
+           "            h5ds_copy(src_loc=src,\n"
+           "                      src_name=key,\n"
+           "                      dst_loc=dst_rec,\n"
+           "                      ensure_compression=ensure_compression,\n"
+           "                      recursive=recursive)\n")
+    if src.count(old) != 1 or "import functools" in src:
+        return src
+    src = src.replace("import json\n", "import functools\nimport json\n", 1)
+    return src.replace(
+        old,
+        "        copy_member = functools.partial(\n"
+        "            h5ds_copy, src_loc=src, dst_loc=dst_rec,\n"
+        "            ensure_compression=ensure_compression, "
+        "recursive=recursive)\n"
+        "        for key in src:\n"
+        "            copy_member(src_name=key)\n")
+
+
 def _twin_fetch_events(src):
     """both gather loops moved into one helper with positional-only
     parameters and *args / **kwargs"""
@@ -2211,6 +2262,24 @@ TWINS = [
       "no_compute=True)\n"
       "            if data is not None:\n"
       "                return data\n")),
+    ("wrapper cache as try / except KeyError", FB,
+     ("        if feat not in self._features:\n"
+      "            feat_obj = BasinProxyFeature(feat_obj=self.ds[feat],\n"
+      "                                         basinmap=self.basinmap)\n"
+      "            self._features[feat] = feat_obj\n"
+      "        return self._features[feat]\n",
+      "        try:\n"
+      "            return self._features[feat]\n"
+      "        except KeyError:\n"
+      "            pass\n"
+      "        feat_obj = BasinProxyFeature(feat_obj=self.ds[feat],\n"
+      "                                     basinmap=self.basinmap)\n"
+      "        self._features[feat] = feat_obj\n"
+      "        return feat_obj\n")),
+    ("basins stored by a module-level procedure", EXPORT,
+     _twin_store_basins_function),
+    ("group members copied through functools.partial", COPIER,
+     _twin_copy_member_partial),
     ("gather loops in a helper with positional-only parameters", FB,
      _twin_fetch_events),
     ("load_dataset with early return", FB,
